@@ -50,6 +50,29 @@ def raw_members(t):
     return out
 
 
+def part_alignments(t):
+    """alignment of the main struct block and of every partN (greatest alignment of the block's items)"""
+    t = W.strip(t)
+    items = W.struct_items(t)
+    parts = [[]]
+    for it in items:
+        parts[-1].append(it)
+        if it['kind'] in ('dynamic', 'ext') or (it['kind'] == 'plain' and it['stiff'] == W.DYNAMIC):
+            parts.append([])
+    if parts and not parts[-1]:
+        parts.pop()
+    return [max(it['align'] for it in p) for p in parts]
+
+
+def swap_fingerprint(t):
+    """structural class of a swap end-pointer mismatch: does a later part have a smaller alignment than the part before it?"""
+    al = part_alignments(t)
+    for k in range(1, len(al) - 1):
+        if al[k] > al[k + 1]:
+            return 'a partN sub-struct is followed by a part with a smaller alignment'
+    return 'other'
+
+
 def union_members(t):
     t = W.strip(t)
     sz, al, _ = W.type_layout(t)
